@@ -21,6 +21,7 @@ import re
 NAN = float("nan")
 INF = float("inf")
 _CRASHED = object()
+_PRE = "import fuzzylite as fl, os, io, sys, numpy as np; sys.path.insert(0, '/verif'); from contracts.batch_native import fld_fll, gen_fll; "
 
 
 class _Stop(Exception):
@@ -38,20 +39,20 @@ class _Run:
         self.skip = tuple(skip_classes or ())
         self.only = only_class
         self.cases = self.distinct = 0
-        self.skipped, self.detail, self.stats = {}, {}, {}
+        self.skipped, self.detail, self.stats, self.extra = {}, {}, {}, None
 
     @staticmethod
     def _m(cls, pat):
         return cls == pat or cls.startswith(pat + ":") or ("*" in pat and fnmatch.fnmatchcase(cls, pat))
 
-    def fail(self, cls, expected, observed, call, detail=None):
+    def fail(self, cls, expected, observed, call, detail=None, extra=None):
         if any(self._m(cls, s) for s in self.skip) or (self.only and not self._m(cls, self.only)):
             self.skipped[cls] = self.skipped.get(cls, 0) + 1
             if detail is not None:
                 self.detail.setdefault(cls, []).append(detail)
             return
         raise _Stop({"failed": True, "class": cls, "expected": _short(expected), "observed": _short(observed),
-                     "call": _short("import fuzzylite as fl, os, io, numpy as np; " + call, 1500), "cases": self.cases})
+                     "call": _short(_PRE + call, 1200), "cases": self.cases, **(extra or self.extra or {})})
 
     def lib(self, where, call, fn, *a, **k):
         """call into the package where the property promises a result: an exception is a failing case of its own class"""
@@ -151,7 +152,7 @@ replay_increment = _entry(_increment)
 _IN_RANGES = [(-1.0, 2.0), (0.0, 10.0), (5.0, 5.5), (-3.0, -1.0)]
 
 
-def _fld_fll(n, kind, lock_previous=False):
+def fld_fll(n, kind, lock_previous=False):
     """small generated engines with n inputs: 'mamdani' (2 outputs, integral defuzzifiers) or 'ts' (Constant/Linear, WeightedAverage)"""
     s = [f"Engine: g{n}{kind}"]
     for i in range(n):
@@ -202,9 +203,10 @@ def _root(v, n):
     return k
 
 
-def _grid(ranges, counts):
-    """the grid of the statement: per input `c` equidistant values from minimum to maximum inclusive, lexicographic, last input fastest"""
-    coords = [[lo + d * (hi - lo) / max(1, c - 1) for d in range(c)] for (lo, hi), c in zip(ranges, counts)]
+def _grid(ranges, counts, alt=False):
+    """the grid of the statement: per input `c` equidistant values from minimum to maximum inclusive, lexicographic, last input fastest.
+    `alt`: the same coordinates with the step rounded first (min + d * step); the two readings differ by an ulp at most"""
+    coords = [[(lo + d * ((hi - lo) / max(1, c - 1))) if alt else (lo + d * (hi - lo) / max(1, c - 1)) for d in range(c)] for (lo, hi), c in zip(ranges, counts)]
     return [list(r) for r in itertools.product(*coords)]
 
 
@@ -235,7 +237,7 @@ def _tok_ok(tok, x, d):
     return abs(t - x) <= 0.5 * 10.0 ** -d * (1 + 1e-9) + 1e-12 * max(1.0, abs(x))
 
 
-def _judge_table(R, text, engine, sw, d, exp_in, call, rowcls, reader=False, v=None):
+def _judge_table(R, text, engine, sw, d, exp_in, call, rowcls, reader=False, v=None, alt_in=None):
     """judge an exported dataset against the expected input rows `exp_in`; sw = (separator, headers, inputs, outputs)"""
     sep, headers, inputs, outputs = sw
     n, m = len(engine.input_variables), len(engine.output_variables)
@@ -275,8 +277,13 @@ def _judge_table(R, text, engine, sw, d, exp_in, call, rowcls, reader=False, v=N
         exp_out = _float_rows(R, engine, exp_in, call)
         if exp_out is _CRASHED:
             return
+        alt_out = None
         for i, t in enumerate(toks):
             if not all(_tok_ok(c, x, d) for c, x in zip(t[ncol - m:], exp_out[i])):
+                if alt_in is not None and alt_out is None:   # an output that jumps within one ulp of a grid coordinate
+                    alt_out = _float_rows(R, engine, alt_in, call)
+                if alt_out not in (None, _CRASHED) and all(_tok_ok(c, x, d) for c, x in zip(t[ncol - m:], alt_out[i])):
+                    continue
                 R.fail("fld-outputs", f"row {i} (inputs {exp_in[i]}) outputs {[f'{x:.{d}f}' for x in exp_out[i]]}", f"row {i}: {lines[i]!r}", call)
                 return
 
@@ -336,12 +343,29 @@ def _fld(fl, R, rng, budget, seed=0, sizes=None, **kw):
         text = R.lib("FldExporter.to_string_from_scope", call, ex.to_string_from_scope, e, v, S[scope])
         if text is not _CRASHED:
             _judge_table(R, text, e, (" ", False, True, False), 6, exp, call, f"fld-rowcount:n={n}", v=v)
+    # (2b) documented `active_variables`: the grid runs over the active inputs only (k still from ALL inputs), the others keep their value
+    for n, act, v in ((2, (1,), 50), (3, (0, 2), 30), (3, (1,), 1000), (4, (3, 0), 700)):
+        R.cases += 1; R.distinct += 1
+        e = _const_engine(fl, n)
+        held = [0.25 * (i + 1) + _IN_RANGES[i][0] for i in range(n)]
+        for iv, x in zip(e.input_variables, held):
+            iv.value = x
+        c = _root(v, n)
+        sub = iter(_grid([_IN_RANGES[i] for i in sorted(act)], [c] * len(act)))
+        exp = [[row[sorted(act).index(i)] if i in act else held[i] for i in range(n)] for row in sub]
+        call = (f"e = fl.Engine('c', input_variables=[fl.InputVariable(f'x{{i}}', minimum=lo, maximum=hi) for i, (lo, hi) in enumerate({_IN_RANGES[:n]})]); "
+                f"[setattr(iv, 'value', x) for iv, x in zip(e.input_variables, {held})]; fl.settings.decimals = 6; fl.FldExporter(headers=False, output_values=False)"
+                f".to_string_from_scope(e, {v}, fl.FldExporter.ScopeOfValues.AllVariables, {{e.input_variables[i] for i in {act}}})")
+        text = R.lib("FldExporter.to_string_from_scope", call, ex.to_string_from_scope, e, v, S.AllVariables, {e.input_variables[i] for i in act})
+        if text is not _CRASHED:
+            _judge_table(R, text, e, (" ", False, True, False), 6, exp, call, "fld-active", v=v)
     # (3) complete comparison (header, switches, separator, decimals, outputs) on engines with 1-4 inputs, both scopes + reader
     engines = []
     for n in (1, 2, 3, 4):
         for kind in ("mamdani", "ts"):
-            fll = _fld_fll(n, kind, lock_previous=(n == 2 and kind == "ts") or (n == 1 and kind == "mamdani"))
-            engines.append((f"e = fl.FllImporter().from_string({fll!r})", fl.FllImporter().from_string(fll)))
+            lock = (n == 2 and kind == "ts") or (n == 1 and kind == "mamdani")
+            fll = fld_fll(n, kind, lock)
+            engines.append((f"e = fl.FllImporter().from_string(fld_fll({n}, {kind!r}, {lock}))", fl.FllImporter().from_string(fll)))
     for rel in _SHIPPED_FLD:
         engines.append((_example_src(rel), _example(fl, rel)))
     n_exports = max(4, budget // 4)
@@ -373,7 +397,7 @@ def _fld(fl, R, rng, budget, seed=0, sizes=None, **kw):
             fn = exporter.to_string_from_scope if j % 2 else (lambda e_, v_, s_: _via_writer(exporter, e_, v_, s_))
             text = R.lib("FldExporter.to_string_from_scope", call, fn, e, v, S[scope])
             if text is not _CRASHED:
-                _judge_table(R, text, e, (sep, headers, inputs, outputs), d, exp, call, f"fld-rowcount:n={n}", v=v)
+                _judge_table(R, text, e, (sep, headers, inputs, outputs), d, exp, call, f"fld-rowcount:n={n}", v=v, alt_in=_grid(ranges, [c] * n, alt=True))
         else:
             m = len(e.output_variables)
             extra = rng.choice([0, 0, m])   # rows of a previously exported dataset also carry output columns: inputs = first n columns
@@ -731,11 +755,13 @@ def _batch(fl, R, rng, budget, seed=0, engines=None, **kw):
     ship = [p for p in pool if p[0] == "shipped"]
     order = [x for pair in itertools.zip_longest(order, ship[:: max(1, 200 // budget)] if budget < 200 else ship) for x in pair if x]
     for kind, key, src in order:
+        R.extra = None
         if kind == "shipped":
             base = R.lib("FllImporter.from_file", src, _example, fl, key)
         else:
             fll = gen_fll(seed, key)
-            src = f"e = fl.FllImporter().from_string({fll!r})"
+            src = f"e = fl.FllImporter().from_string(gen_fll({seed!r}, {key}))"
+            R.extra = {"engine_fll": fll}
             try:
                 base = fl.FllImporter().from_string(fll)
             except Exception:   # a generated engine the importer rejects is not a case
